@@ -242,7 +242,7 @@ func stripNot(cond ssa.Value, branch bool) (ssa.Value, bool) {
 func factBool(m VPred, want bool) EdgePred {
 	return func(cond ssa.Value, branch bool) bool {
 		c, b := stripNot(cond, branch)
-		if m(c) {
+		if m(c) || m(envValue(c)) {
 			return b == want
 		}
 		// comparisons with boolean constants: x == true etc.
@@ -1681,10 +1681,19 @@ func (p *Prog) newTypeMethods() []*ssa.Function {
 // returns. It reports whether the value ret yields for result idx can never reach a use: ret answers a constant
 // boolean b for a sibling result, while every use of the call's result idx in the caller lies behind a test of that
 // sibling result being !b (the `v, ok := helper(); if ok { use(v) }` idiom).
+// siblingDepth guards siblingExcludes against re-entering itself through the path search it asks (a guard query
+// evaluates edge predicates, which ask for origins, which ask siblingExcludes …): nested, it answers "not excluded".
+var siblingDepth int
+
 func siblingExcludes(call *ssa.Call, idx int, ret *ssa.Return) bool {
 	if len(ret.Results) < 2 || call.Referrers() == nil {
 		return false
 	}
+	if siblingDepth >= 2 {
+		return false
+	}
+	siblingDepth++
+	defer func() { siblingDepth-- }()
 	var val ssa.Value
 	sib := map[int]ssa.Value{}
 	for _, ref := range *call.Referrers() {
